@@ -50,7 +50,12 @@ def nested(loop):
 def head(rel, lp):
     if lp.get("kind") != "ForStmt":
         return ("", "", "")
-    return (text_of(rel, lp["inner"][0]).rstrip(";"), text_of(rel, lp["inner"][2]), text_of(rel, lp["inner"][3]))
+    import re as _re
+    inc = text_of(rel, lp["inner"][3])
+    m = _re.match(r"^(?:\+\+(\w+)|(\w+)\+=1|(\w+)=\3\+1)$", inc)        # ++i, i+=1, i=i+1 are the same step as i++
+    if m:
+        inc = (m.group(1) or m.group(2) or m.group(3)) + "++"
+    return (text_of(rel, lp["inner"][0]).rstrip(";"), text_of(rel, lp["inner"][2]), inc)
 
 
 def top_loops(fn, rel, cond_prefix=None, body_has=()):
@@ -1014,3 +1019,4 @@ def _more():
 
 
 UNITS = UNITS + _more()
+from props.c18_ext2 import UNITS as _U2; UNITS = UNITS + _U2
